@@ -317,7 +317,8 @@ def run_hist_engine(ctx, spec):
     cov.setdefault("engines", []).append({
         "engine": "hist", "profile": spec["profile"], "seed": seed, "cases": s["cases"], "distinct": len(hashes),
         "nontrivial": nt, "disagreeing_cases": len(first), "wall_s": round(time.time() - t0, 1),
-        "transactions": s["stats"].get("Txns", 0), "transactions_outside_invariant_hypotheses": len(outside),
+        "transactions": s["stats"].get("Txns", 0), "transactions_outside_invariant_hypotheses": len([m for m in outside if m[3] == 0]),
+        "transactions_with_inadmissible_key_operations": len([m for m in outside if m[3] == 1]),
         "distribution": s["stats"]})
     for smp in (s.get("samples") or [])[:1]:
         cov["samples"].append({"engine": "hist", "profile": spec["profile"], "history": smp[:4000]})
@@ -591,6 +592,11 @@ def run_sched_engine(ctx, spec):
         shutil.rmtree(out)
     cmd = [os.path.join(CACHE, "harness"), "sched", "--seed", str(ctx.seed), "--n", str(n), "--dfs", str(dfs),
            "--scenarios", spec["scenarios"], "--out", out]
+    if "snap" in spec["scenarios"].split(","):
+        # every coarse-grained schedule (pre-emption between whole block commits / block reads) of the
+        # directed snapshot configurations: the three two-writer ones exhaustively (168 each) in the
+        # quick tier, all five (2772 schedules) and the finer variant in the thorough tier
+        cmd += (["--cdfs", "400", "--cdfs-fine-samples", "150"] if ctx.tier == "quick" else ["--cdfs", "6000", "--cdfs-fine", "4000"])
     if ctx.replay:
         r = json.load(open(ctx.replay))
         d = r.get("data") or {}
@@ -783,7 +789,7 @@ PROPS = {
                 rule="random op sequences over {delete, insert, put, merge} x {0,2,4,8-byte, bytes} x offset moves, written to the real buffer; every case is distinct by construction (independent PRNG streams) and non-trivial (>=1 op); the model must produce the same bytes"),
     "C06": dict(engines=[H("replica", 60, 800), S("rows,keys", 150, 3000, dfs_thorough=6000)],
                 rule="sequential: histories replayed on a second collection (channel clones or a serialized log file), replica dump compared; schedules: 2-3 writers over 1-2 blocks (random + exhaustive DFS in the thorough tier), replica fed in logger order; distinct = distinct schedule traces"),
-    "C08": dict(engines=[S("snap", 700, 6000, dfs_quick=300, dfs_thorough=8000), H("restore", 30, 300)],
+    "C08": dict(engines=[S("snap", 450, 6000, dfs_quick=150, dfs_thorough=8000), H("restore", 30, 300)],
                 rule="a snapshot thread beside 2-3 committing writers (merges and overwrites, one or two blocks) at every yield point of the commit and snapshot protocols; the restored rows must be a prefix per block of the latch order containing every commit acknowledged before the snapshot began"),
     "C09": dict(engines=[S("rows", 250, 4000, dfs_quick=300, dfs_thorough=8000), H("values", 30, 300)],
                 rule="2-3 writers merging (additive and order-sensitive v*3+d) into overlapping rows of 1-2 blocks with readers; final value = fold of the committed deltas in latch order"),
